@@ -12,7 +12,8 @@ RULE = (
     "Hypothesis-generated small specs (matmul / matvec / 2-matmul chain / 2 elementwise ops; rank bounds from "
     "{1,2,2,3,4,4,6}; Main+GLB, or Main+GLB+Reg for one Einsum; finite throughputs on every action, leak powers, "
     "GLB sized around the tensor sizes; half of the architectures use a fast-but-dear Main over a slow-but-cheap GLB so "
-    "energy and latency pull apart). Each spec is mapped five times: metrics ENERGY, LATENCY, ENERGY|LATENCY, "
+    "energy and latency pull apart; 1-bit values are avoided and capacities are n values + half a value, see vf/gen/spec.py). "
+    "Each spec is mapped five times: metrics ENERGY, LATENCY, ENERGY|LATENCY, "
     "ENERGY_DELAY_PRODUCT with eval_in_detail on, and one drawn combination (those four or E|L|EDP) with eval_in_detail "
     "off. Oracle: feasibility is the same for all runs; min E over the E|L front == opt(E); min L over the front == "
     "opt(L); min E*L over the front == opt(EDP); every returned row of every run that carries the three columns has "
@@ -102,7 +103,7 @@ def check(desc, col):
         _eq(b, ref, f"eval_in_detail=False metrics={nd_metrics}: best {name} vs optimum of the dedicated run", f"nodetail-{name}")
 
 
-N = {"quick": 32, "thorough": 320}
+N = {"quick": 24, "thorough": 320}
 
 
 def shards(tier, seed):
